@@ -252,7 +252,7 @@ fn nested_shells(r: &mut crate::rng::Rng) -> RawMesh {
 
 fn run_mesh(c: &mut Ctx) {
     let max_faces = if c.tiny {
-        40
+        16
     } else if c.thorough && c.rng.chance(0.01) {
         50_000
     } else if c.rng.chance(0.05) {
@@ -260,7 +260,7 @@ fn run_mesh(c: &mut Ctx) {
     } else {
         600
     };
-    let raw = if c.rng.chance(0.1) {
+    let raw = if !c.tiny && c.rng.chance(0.1) {
         let m = nested_shells(&mut c.rng);
         let t = gen::iso3(&mut c.rng, 3.0);
         m.transformed(&t)
@@ -288,7 +288,7 @@ fn run_mesh(c: &mut Ctx) {
     let eps = 1e-9 * ext + 1e3 * U * raw.offset_norm();
     let nf = f.len();
     let budget = if c.tiny { 2_000 } else if c.thorough { 4_000_000 } else { 400_000 };
-    let nq = (budget / nf.max(1)).clamp(8, 80);
+    let nq = if c.tiny { 3 } else { (budget / nf.max(1)).clamp(8, 80) };
     let centroid = v.iter().fold(Vector3::zeros(), |a, p| a + p.coords) / v.len() as f64;
 
     for k in 0..nq {
